@@ -20,6 +20,7 @@ import (
 //   idx%4 == 0,1  macro programs: (a) real vs reference interpreter, (b) twin: every call site
 //                 replaced by (eval (macroexpand '(call))) must give the same transcript,
 //                 (c) macroexpand-1 iterated to a fixpoint equals macroexpand
+//                 (idx%8 == 5: expansions that embed live objects, four evaluation routes - c07_live.go)
 //   idx%4 == 2    quasiquote templates: real vs template model (quote marks compared)
 //   idx%4 == 3    gensym: distinctness among themselves and from the program's symbols
 //                 (idx%16 == 15: over long histories, the counter fast-forwarded - c07_long.go)
@@ -28,7 +29,7 @@ func init() {
 	fw.Register(&fw.Prop{
 		ID:    "C07",
 		Level: "exploration",
-		Rule: "macro definitions generated from quasiquote templates (unquote / unquote-splicing at first, middle, last position, adjacent and empty splices, under quote marks, in nested lists; macros expanding to macro calls, to definitions, using gensym; defmacro and macrolet) with call sites whose argument forms carry effect probes; quasiquote templates of depth <= 6; gensym runs of up to 2000 symbols per runtime incl. through trace/get-default/deftype/curry-function in programs whose text contains gen-prefixed numbered symbols; gensym over long histories: one runtime, symbols taken through (gensym), user macros, builtin macro expansions, Runtime.GenSym and LEnv.GenSym, the counter fast-forwarded (hook VerifAdvanceGenSym) 1-4 times between the takes and inside evaluations by amounts around 10^1..10^19, 2^31, 2^32, 2^53, 2^63 and up to 2^64-2^32 in total, all symbols of the runtime pairwise distinct (Go strings and equal?) and absent from the texts loaded, macro-hygiene programs whose expansions are made before and after fast-forwards agreeing with the reference model. " +
+		Rule: "macro definitions generated from quasiquote templates (unquote / unquote-splicing at first, middle, last position, adjacent and empty splices, under quote marks, in nested lists; macros expanding to macro calls, to definitions, using gensym; defmacro and macrolet) with call sites whose argument forms carry effect probes; macros whose templates unquote a live mutable object computed at expansion time (global sorted-map, vector, runtime list, deftype instance over a map or vector, closure over a counter or a map, components of nested structures of those, an object private to the macro) into a form that mutates it (assoc!, dissoc!, append!, stable-sort in place, a call of the closure; the object occurring once, twice, spliced, let-bound, passed on as argument of another macro), called directly, through eval of macroexpand, through eval of the macroexpand-1 fixpoint and nested in another macro's expansion, each route in a fresh runtime, the state of every object (read through its global after every call) and equal?-readings between global and embedded object compared across the routes and with the reference model where it models the constructs; quasiquote templates of depth <= 6; gensym runs of up to 2000 symbols per runtime incl. through trace/get-default/deftype/curry-function in programs whose text contains gen-prefixed numbered symbols; gensym over long histories: one runtime, symbols taken through (gensym), user macros, builtin macro expansions, Runtime.GenSym and LEnv.GenSym, the counter fast-forwarded (hook VerifAdvanceGenSym) 1-4 times between the takes and inside evaluations by amounts around 10^1..10^19, 2^31, 2^32, 2^53, 2^63 and up to 2^64-2^32 in total, all symbols of the runtime pairwise distinct (Go strings and equal?) and absent from the texts loaded, macro-hygiene programs whose expansions are made before and after fast-forwards agreeing with the reference model. " +
 			"distinct_nontrivial counts distinct (template shapes, call shape, outcome) and (qq template skeleton) signatures",
 		Assumptions: []string{
 			"the template model is refint's quasiquote (everything literal, unquote inserts a value, unquote-splicing splices a list, written quote marks are re-applied)",
@@ -249,7 +250,11 @@ func c07Run(w *fw.W, idx int) {
 			c07Gensym(w, idx)
 		}
 	default:
-		c07Macros(w, idx)
+		if idx%8 == 5 {
+			c07Live(w, idx) // c07_live.go
+		} else {
+			c07Macros(w, idx)
+		}
 	}
 }
 
@@ -318,43 +323,11 @@ func c07Macros(w *fw.W, idx int) {
 	w.Logf("source:\n%s\n=> %s trace %s", src, t1.Outcome(), t1.TraceString())
 
 	// (a) reference interpreter
-	in := refint.New()
-	mv, merr := func() (mv *refint.V, me *refint.Err) {
-		defer func() {
-			if rec := recover(); rec != nil {
-				me = &refint.Err{Cond: fmt.Sprint("<model panic: ", rec, ">"), Unsure: true}
-			}
-		}()
-		return in.LoadForms(forms)
-	}()
-	if merr == nil || !(merr.Fuel || merr.Unsure) {
-		bad := ""
-		if len(rr.Trace) != len(in.Trace) {
-			bad = fmt.Sprintf("effect trace length %d vs model %d", len(rr.Trace), len(in.Trace))
-		}
-		for i := 0; bad == "" && i < len(rr.Trace); i++ {
-			a, b := rr.Trace[i], in.Trace[i]
-			ok := a.Tag == b.Tag && len(a.Trees) == len(b.Vals)
-			for j := 0; ok && j < len(a.Trees); j++ {
-				ok = tree.Equal(a.Trees[j], b.Vals[j], tree.Opts{IgnoreQuote: true})
-			}
-			if !ok {
-				bad = fmt.Sprintf("effect %d: real %s vs model %s", i, a.String(), b.Tag)
-			}
-		}
-		if bad == "" && t1.IsErr != (merr != nil) {
-			bad = fmt.Sprintf("real %s vs model err=%v", t1.Outcome(), merr)
-		}
-		if bad == "" && t1.IsErr && t1.Cond != merr.Cond {
-			bad = fmt.Sprintf("condition %s vs model %s", t1.Cond, merr.Cond)
-		}
-		_ = mv
-		if bad != "" {
-			w.Violation("macro-model-disagreement", bad, fmt.Sprintf("source:\n%s\nreal: %s\n trace %s\nmodel: err=%v\n trace %s", src, t1.Outcome(), t1.TraceString(), merr, in.TraceString()))
-			return
-		}
-	} else {
+	if bad, declined, in := c07AgainstModel(forms, rr, t1); declined {
 		w.Count("model_declined", 1)
+	} else if bad != "" {
+		w.Violation("macro-model-disagreement", bad, fmt.Sprintf("source:\n%s\nreal: %s\n trace %s\nmodel: %s\n trace %s", src, t1.Outcome(), t1.TraceString(), bad, in.TraceString()))
+		return
 	}
 
 	// (b) twin: call == eval of its macroexpansion, in the same environment
@@ -412,6 +385,44 @@ func c07Macros(w *fw.W, idx int) {
 	if w.WantSample() && len(src) < 900 && len(t1.Trace) > 3 {
 		w.Sample(map[string]any{"source": src, "outcome": t1.Outcome(), "trace": t1.TraceString()})
 	}
+}
+
+// c07AgainstModel loads forms into the reference interpreter and compares its effect
+// trace and outcome with those of the real run (rr, t1).  declined: the model does not
+// predict this program (fuel / a construct it is unsure about).
+func c07AgainstModel(forms []*sx.N, rr *rt.R, t1 rt.Transcript) (bad string, declined bool, in *refint.Interp) {
+	in = refint.New()
+	_, merr := func() (mv *refint.V, me *refint.Err) {
+		defer func() {
+			if rec := recover(); rec != nil {
+				me = &refint.Err{Cond: fmt.Sprint("<model panic: ", rec, ">"), Unsure: true}
+			}
+		}()
+		return in.LoadForms(forms)
+	}()
+	if merr != nil && (merr.Fuel || merr.Unsure) {
+		return "", true, in
+	}
+	if len(rr.Trace) != len(in.Trace) {
+		bad = fmt.Sprintf("effect trace length %d vs model %d", len(rr.Trace), len(in.Trace))
+	}
+	for i := 0; bad == "" && i < len(rr.Trace); i++ {
+		a, b := rr.Trace[i], in.Trace[i]
+		ok := a.Tag == b.Tag && len(a.Trees) == len(b.Vals)
+		for j := 0; ok && j < len(a.Trees); j++ {
+			ok = tree.Equal(a.Trees[j], b.Vals[j], tree.Opts{IgnoreQuote: true})
+		}
+		if !ok {
+			bad = fmt.Sprintf("effect %d: real %s vs model %s", i, a.String(), b.Tag)
+		}
+	}
+	if bad == "" && t1.IsErr != (merr != nil) {
+		bad = fmt.Sprintf("real %s vs model err=%v", t1.Outcome(), merr)
+	}
+	if bad == "" && t1.IsErr && t1.Cond != merr.Cond {
+		bad = fmt.Sprintf("condition %s vs model %s", t1.Cond, merr.Cond)
+	}
+	return bad, false, in
 }
 
 var c07GensymRe = regexp.MustCompile(`gen[0-9]{8}`)
